@@ -32,6 +32,14 @@ func genC12(t *rapid.T) *c12Case {
 	switch class {
 	case "lossy":
 		w, h = rapid.IntRange(8, 120).Draw(t, "w"), rapid.IntRange(49, 140).Draw(t, "h")
+		if rapid.IntRange(0, 3).Draw(t, "tall") == 0 {
+			// more macroblock rows than any worker count in use (17..64 rows): per-worker row ranges of
+			// several rows, ranges that do not divide evenly, caps on the number of workers
+			h = rapid.IntRange(257, 1024).Draw(t, "tallH")
+			if rapid.Bool().Draw(t, "tallWide") {
+				w = rapid.IntRange(120, 400).Draw(t, "tallW")
+			}
+		}
 		c.Opts = gen.DrawLossyOpts(t, rapid.IntRange(0, 5).Draw(t, "targets") == 0)
 	case "lossless-small":
 		w, h = rapid.IntRange(8, 90).Draw(t, "w"), rapid.IntRange(8, 90).Draw(t, "h")
@@ -71,7 +79,7 @@ func genC12(t *rapid.T) *c12Case {
 	c.Img = &gen.Img{W: w, H: h, Kind: "nrgba", Place: "tight", Content: content, Alpha: alpha}
 	c.Img.Pix = gen.RenderContent(w, h, content, alpha, seed)
 	c.Img.Colors = 300
-	all := []int{1, 2, 3, 4, 5, 6, 7, 8, 12, 16, 32}
+	all := []int{1, 2, 3, 4, 5, 6, 7, 8, 12, 16, 32, 17, 20, 24, 31, 33, 48, 64, 128}
 	n := 3
 	if tierThorough() {
 		n = 6
